@@ -3,7 +3,7 @@ CHECK = {
                suite("trees", "c13", 200, 2000, stdin=True, args=["-suite", "trees"], timeout={"quick": 600, "thorough": 2400})],
     "gen": [{"pkg": "extract_c13", "out": "lean/ClusterVerif/Gen/C13.lean"}],
     "lean_sources": ["ClusterVerif/Model/Pin.lean", "ClusterVerif/Gen/C13.lean", "ClusterVerif/Model/C13.lean",
-                     "ClusterVerif/Spec/C13.lean", "ClusterVerif/Lemmas/C13.lean", "ClusterVerif/Lemmas/C13Log.lean"],
+                     "ClusterVerif/Spec/C13.lean", "ClusterVerif/Lemmas/C13.lean", "ClusterVerif/Lemmas/C13Log.lean", "ClusterVerif/Lemmas/C13Deliv.lean"],
     "rule": "stream: synthetic raw-block streams (1-6 runs of equal-sized blocks, repeats, early/foreign roots; 5983..11969 four-byte blocks in the "
             "thorough tier) into single.New / sharding.New with shard limits at, one under and one over sums of block runs, 1-4 scripted allocations "
             "over 5 destinations, BlockPut faults (IPFS / RPC error, from the j-th put of a destination), BlockAllocate and Pin failures; "
@@ -19,7 +19,7 @@ CHECK = {
                      "Obs.view (the decoder of implementation output into the Spec's view) agrees with the model's structural view: proved for the accepted pins (decoded_pins), checked per case for shard contents, depths and destinations"],
     "assumptions": ["PARTIAL: closure under links, byte-exact read-back and the two root equalities are validated on generated inputs, not proved (no Lean model of "
                     "chunking / hashing / protobuf)",
-                    "the importer reaches Finalize only when no Add failed (CallerStops); refuted for go-unixfs balanced.Layout: known finding K13a",
+                    "the importer reaches Finalize only when no Add failed (CallerStops); refuted for go-unixfs balanced.Layout: known finding K33",
                     "added content is pinned recursively whatever pin mode was requested; negative replication factors are written as empty allocations",
                     "adds with the local flag are outside the allocation clause; several top-level entries without wrapping are outside the property",
                     "go-mfs flushes directories in map order: the observed block order of multi-directory trees may differ between runs of one input"],
@@ -31,7 +31,7 @@ META = {
             "the root pin with the block destinations (not sharded) or shard pins + cluster-DAG + meta entry whose links partition the stream in order, "
             "every shard strictly under the limit, depth 2 exactly when makeDAG built an indirect node (> MaxLinks links, constants regenerated from the "
             "source). Without that hypothesis the statement is refuted by a witness, which the harness reproduces on the implementation: go-unixfs "
-            "balanced.Layout drops the error of the first child's Add, the root is pinned although a block was never stored (known finding K13a). "
+            "balanced.Layout drops the error of the first child's Add, the root is pinned although a block was never stored (known finding K33). "
             "Content (closure, read-back, root equal with/without sharding and to the library importer) is validated by reading the delivered blocks back.",
     "note": "Partial: bookkeeping proved, content validated. Trusted: Lean kernel, hand-written model/spec and view decoder, harness fakes over real libp2p "
             "streams, Go content oracles (go-unixfs / go-merkledag / go-car).",
